@@ -1,12 +1,15 @@
 #!/bin/bash
-# usage: tools/matrix.sh            (about 15 minutes)
+# usage: tools/matrix.sh            (about 45 minutes)
 # Runs every seeded change under /verif/seeded through the quick check of its property
 # (apply to /repo, check, undo) and writes seeded/MATRIX.txt. Every line must say exit=1.
 cd /verif
 for d in seeded/c*/; do
   id=$(basename "$d"); P=$(echo "${id:0:3}" | tr a-z A-Z)
   if git -C /repo apply --check "/verif/seeded/$id/patch.diff" 2>/dev/null; then
-    tools/try_seeded.sh "$id" "$P" 2>&1 | grep "^seeded="
+    # c06a makes thousands of cases run into the file-read budget (200 000 reads each): the first 4 000 cases of the
+    # same batch (case k is a function of the seed and k alone) make the point in a tenth of the time
+    extra=""; [ "$id" = c06a ] && extra="--runs 4000"
+    tools/try_seeded.sh "$id" "$P" $extra 2>&1 | grep "^seeded="
   else
     echo "seeded=$id PATCH-DOES-NOT-APPLY (rebase it: git apply --3way in a scratch worktree)"
   fi
